@@ -143,10 +143,11 @@ def run(tier, seed, replay=None):
         return res.finish()
     thorough = tier == "thorough"
     pred_only = []
+    rp_data = {}
     if replay:
-        rp = json.load(open(replay))
-        scripts = [rp["script"]]
-        if rp["script"].get("family") == "close-payload":
+        rp_data = json.load(open(replay))
+        scripts = [rp_data["script"]] if "script" in rp_data else []
+        if scripts and scripts[0].get("family") == "close-payload":
             pred_only, scripts = scripts, []
     else:
         scripts = gen_scripts(seed, 2500 if thorough else 400, thorough)
@@ -206,12 +207,21 @@ def run(tier, seed, replay=None):
             if s["family"] == "close-payload" and fr.get("typ") == 14 and fr.get("st") == "short-payload":
                 sig = "closeconnection-payload-dropped"
                 text = ("SendMessage(MsgCloseConnection, 5 bytes): the header announces length %s but no payload byte follows "
-                        "(the write loop parks after the CloseConnection header)" % fr.get("lenfield"))
+                        "(the write loop parks after the CloseConnection header, before the payload copy)" % fr.get("lenfield"))
             if sig not in reported:
                 reported.add(sig)
-                res.violation(sig, text, dict(kind="script", script=s, theorem="C05_close_connection_payload_refuted"))
+                res.violation(sig, text, dict(kind="script", script=s, theorem="C05_outbound_is_frame_concat / C05_chunks_of_frame"))
     # stress
     stress = []
+    if replay and "stress" in rp_data:
+        stress = [rp_data["stress"]]
+        sg, _ = cc.run_go(exe, stress, shards=1, test="TestVerifClientStress", timeout=900)
+        for rq, tr in zip(stress, sg):
+            evals += 1
+            for sig, text in (cc.judge_stress(tr)[PID.lower()] if tr else [("harness-run", "no trace")]):
+                if sig not in reported:
+                    reported.add(sig)
+                    res.violation(sig, "%s [stress %s]" % (text, rq.get("id")), dict(kind="stress", stress=rq))
     if not replay:
         rnd = random.Random(seed + 5)
         for i in range(10 if thorough else 4):
